@@ -2,7 +2,7 @@
    The executable model itself is shared: Model/Heap.v (heap + Node/Edge methods) and
    Model/HeapOps.v (Tree methods, `op`, `run_op`).  Definitions only. *)
 From Coq Require Import ZArith List Bool.
-From DV Require Import Model.PyPrims Model.Tree Model.Heap Model.HeapOps.
+From DV Require Import Model.PyPrims Model.Tree Model.Heap Model.HeapOps Model.C03Spec Model.C03Bip.
 Import ListNotations.
 Open Scope Z_scope.
 
@@ -27,7 +27,11 @@ Record step := mkStep {
   s_op : op;
   s_err : option err;          (* exception class, None when the call returned *)
   s_tree : list Z;             (* enc_tree of the pointer dump from the seed node *)
-  s_rooted : option bool       (* Tree._is_rooted *)
+  s_rooted : option bool;      (* Tree._is_rooted *)
+  s_incr : bool;               (* suppress_unifurcations(update_bipartitions=True): incremental maintenance *)
+  s_enc : option (list (Z * Z))
+    (* when the call was asked to update bipartitions and returned: Tree.bipartition_encoding as
+       (owner node of the Bipartition object, _leafset_bitmask), in list order *)
 }.
 
 Record case := mkCase {
@@ -43,20 +47,44 @@ Definition observe_model (r : hres) : option (option err * heap) :=
   | HFuel => None
   end.
 
-Definition step_ok (s : step) (e : option err) (h : heap) : bool :=
+Fixpoint pins (p : Z * Z) (l : list (Z * Z)) : list (Z * Z) :=
+  match l with
+  | [] => [p]
+  | q :: r => if fst p <=? fst q then p :: l else q :: pins p r
+  end.
+Definition psort (l : list (Z * Z)) : list (Z * Z) := fold_right pins [] l.
+Definition pair_eqb (a b : Z * Z) : bool := Z.eqb (fst a) (fst b) && Z.eqb (snd a) (snd b).
+
+(* the encoding the model predicts: a fresh encoding of the tree the operation leaves (the operation
+   ends in encode_bipartitions), or - for the incremental maintainer - the stored list of the
+   state before (current by construction of the harness) with the removed nodes' entries deleted.
+   Compared as a multiset of (owner, mask): to_outgroup_position re-positions the outgroup AFTER
+   the encoding was made, so the list order need not be the post-order of the final tree. *)
+Definition enc_ok (s : step) (h0 h : heap) : bool :=
+  match s_enc s with
+  | None => true
+  | Some l =>
+    let expected :=
+      if s_incr s then match abs h0 with Some t0 => su_enc_incremental t0 (enc_list t0) | None => [] end
+      else match abs h with Some t => enc_list t | None => [] end in
+    list_eqb pair_eqb (psort expected) (psort l)
+  end.
+
+Definition step_ok (s : step) (e : option err) (h0 h : heap) : bool :=
   option_eqb err_eqb e (s_err s)
   && match abs h with
      | Some t => list_eqb Z.eqb (enc_tree t) (s_tree s)
      | None => false
      end
-  && obool_eqb (rooted h) (s_rooted s).
+  && obool_eqb (rooted h) (s_rooted s)
+  && enc_ok s h0 h.
 
 Fixpoint check_steps (l : list step) (h : heap) : bool :=
   match l with
   | [] => true
   | s :: r =>
     match observe_model (run_op (s_op s) h) with
-    | Some (e, h') => step_ok s e h' && check_steps r h'
+    | Some (e, h') => step_ok s e h h' && check_steps r h'
     | None => false
     end
   end.
